@@ -20,7 +20,33 @@ fn gen_ops(rng: &mut Rng, tier: Tier) -> Vec<String> {
     while ops.last().map(|o| o.starts_with("ndump") || o.starts_with("nsync")).unwrap_or(false) {
         ops.pop();
     }
-    let n = ops.iter().filter_map(|o| o.split_whitespace().nth(1).and_then(|x| x.parse::<usize>().ok())).max().unwrap_or(1) + 1;
+    // scripted addition: make sure some server holds PARTIALLY BUFFERED versions (head only / head and tail / middle
+    // only) of a multi-row transaction of a dedicated origin (node 3), and ask for ranges inside, overlapping and
+    // reaching past what is buffered
+    {
+        ops.push(format!(
+            "nw 3 ins:t:i4:a=t{:02x},b=i1;ins:t:i5:a=t62,b=i2;ins:u:i4+t61:x=t78;ins:u:i4+t62:x=t79",
+            rng.range(0x61, 0x79)
+        )); // version 1 of node 3: seqs 0..=5
+        let shape = rng.below(3);
+        let holder = rng.below(2); // server 0 or 1
+        match shape {
+            0 => ops.push(format!("nb {holder} o:3:1:0-{}", rng.range(0, 3))),
+            1 => {
+                ops.push(format!("nb {holder} o:3:1:0-{}", rng.range(0, 1)));
+                ops.push(format!("nb {holder} o:3:1:{}-5", rng.range(4, 5)));
+            }
+            _ => ops.push(format!("nb {holder} o:3:1:{}-{}", rng.range(1, 2), rng.range(3, 4))),
+        }
+        ops.push(format!("ndump {holder}"));
+        for spec in ["0-5", "0-0", "1-2", "2-5", "3-9", "0-1,4-5", "2-2,3-3", "5-8", "1-4"] {
+            if rng.chance(3, 4) {
+                ops.push(format!("nserve {holder} 3 P1:{spec}"));
+            }
+        }
+        ops.push(format!("nserve {holder} 3 F1-1"));
+    }
+    let n = ops.iter().filter_map(|o| o.split_whitespace().nth(1).and_then(|x| x.parse::<usize>().ok()).filter(|x| *x < 3)).max().unwrap_or(1) + 1;
     for server in 0..n.min(3) {
         ops.push(format!("ndump {server}"));
         for site in 0..n.min(3) {
